@@ -320,7 +320,7 @@ pub fn parse_party_identifier(input: &str) -> Result<Option<String>, ParseError>
 
     // Simple /34x format: the identifier itself may contain slashes (x includes '/'), so an
     // identifier that does not start with a /1!a/ or /2!a/ code is taken as a whole
-    if remaining.len() <= 34 {
+    if !remaining.is_empty() && remaining.len() <= 34 {
         parse_swift_chars(remaining, "party identifier")?;
         return Ok(Some(remaining.to_string()));
     }
